@@ -318,6 +318,7 @@ func (r *tileHashReader) ReadHashes(indexes []int64) ([]Hash, error) {
 		tileOrder[tile] = len(tiles)
 		tiles = append(tiles, tile)
 	}
+	numStxTiles := len(tiles) // may be less than len(stx): several stx hashes can share a tile
 
 	// Plan to fetch tiles containing the indexes,
 	// along with any parent tiles needed
@@ -398,7 +399,7 @@ func (r *tileHashReader) ReadHashes(indexes []int64) ([]Hash, error) {
 	}
 
 	// Authenticate full tiles against their parents.
-	for i := len(stx); i < len(tiles); i++ {
+	for i := numStxTiles; i < len(tiles); i++ {
 		tile := tiles[i]
 		p := tileParent(tile, 1, r.tree.N)
 		j, ok := tileOrder[p]
